@@ -8,11 +8,11 @@ SPEC = {
     "id": "C21",
     "props_module": "NDB.Props.C21",
     "corr_modules": ["NDB.Corr.C21"],
-    "theorems": ["C21_count_collect", "C21_sum_exact_or_float", "C21_min_max", "C21_one_row_per_key", "C21_nankey_refuted"],
+    "theorems": ["C21_count_collect", "C21_sum_exact_or_float", "C21_min_max", "C21_one_row_per_key", "C21_nankey_refuted", "C21_zerokey_refuted"],
     "allowed_axioms": _m.ALLOWED_PRIMITIVES,
     "harness_pkg": "hx_cypher",
     "harness_bin": "c21",
-    "n": {"quick": 1500, "thorough": 30000},
+    "n": {"quick": 1200, "thorough": 30000},
     "trusted_base": _m.TRUSTED_COMMON + [
         "grouping equality = Rust `==` plus identical float bit patterns (what HashMap<Vec<Value>,_> with the hand-written "
         "Hash does, up to hash-tag collisions between 0.0 and -0.0, which the generator keeps out of grouping keys)",
